@@ -153,7 +153,8 @@ def step (d : DSt) (j : Json) : DSt × List String :=
     let cd := callOf c
     match cd.tx with
     | .ok t =>
-      let r := add (envOf d [cd]) d.subs d.st t cd.payload
+      let r := if jBool j "cancel" then addCancelled (envOf d [cd]) d.subs d.st t cd.payload
+               else add (envOf d [cd]) d.subs d.st t cd.payload
       let (d, o) := observe { d with st := r.1 }
       (d, [s!"r={resCls r.2} | {o}"])
     | .err e => let (d, o) := observe d; (d, [s!"r=err:{e} | {o}"])
